@@ -599,7 +599,8 @@ func (a *float64Array) exportType() reflect.Type {
 }
 
 func (a *bigInt64Array) toRaw(value Value) uint64 {
-	return toBigInt64(value).Uint64()
+	// not big.Int.Uint64(): for a negative value that returns the low bits of the absolute value
+	return uint64(toBigInt64(value).Int64())
 }
 
 func (a *bigInt64Array) ptr(idx int) *int64 {
